@@ -38,12 +38,12 @@ TRIGGERS = ('quit', 'quit_waiting', int(signal.SIGTERM), int(signal.SIGINT), int
 PRE = ('none', 'incr', 'restart', 'reload', 'kill', 'late_socket', 'on_demand', 'on_demand_death', 'changed_watcher')
 
 
-def _config(tmp, stubborn, two, warm, nosock=False, ondemand=False):
+def _config(tmp, stubborn, two, warm, nosock=False, ondemand=False, check_delay=1):
     if nosock:
         return '\n'.join(['[circus]', 'check_delay = 1', 'endpoint = tcp://127.0.0.1:5555', 'pubsub_endpoint = tcp://127.0.0.1:5556',
                           'pidfile = %s' % os.path.join(tmp, 'circusd.pid'), '',
                           '[watcher:web]', 'cmd = webprog', 'numprocesses = 2', 'graceful_timeout = 0.4', ''])
-    lines = ['[circus]', 'check_delay = 1', 'endpoint = tcp://127.0.0.1:5555', 'pubsub_endpoint = tcp://127.0.0.1:5556',
+    lines = ['[circus]', 'check_delay = %d' % check_delay, 'endpoint = tcp://127.0.0.1:5555', 'pubsub_endpoint = tcp://127.0.0.1:5556',
              'pidfile = %s' % os.path.join(tmp, 'circusd.pid'), '',
              '[watcher:web]', 'cmd = webprog --fd $(circus.sockets.web)', 'numprocesses = 2', 'use_sockets = True',
              'graceful_timeout = 0.4', 'warmup_delay = %d' % (1 if ondemand else warm)] + (['on_demand = True'] if ondemand else []) + ['',
@@ -71,7 +71,7 @@ def c08_shutdown(ti: int, pi: int, d: int, late: int, rep: int) -> bool:
     tmp = tempfile.mkdtemp(prefix='c08_')
     cfgpath = os.path.join(tmp, 'circus.ini')
     with open(cfgpath, 'w') as f:
-        f.write(_config(tmp, S.get('stubborn', False), S.get('two', True), S.get('warm', 0), nosock=(pre == 'late_socket'), ondemand=(pre in ('on_demand', 'on_demand_death'))))
+        f.write(_config(tmp, S.get('stubborn', False), S.get('two', True), S.get('warm', 0), nosock=(pre == 'late_socket'), ondemand=(pre in ('on_demand', 'on_demand_death')), check_delay=S.get('check_delay', 1)))
     old_argv = sys.argv
     state = {'fired': False, 'hung': False, 'pre_req': None, 'quit_req': None}
     try:
@@ -156,6 +156,13 @@ def c08_shutdown(ti: int, pi: int, d: int, late: int, rep: int) -> bool:
             k.tick = tick
 
             def by_time():
+                if S.get('in_select') and trig not in ('quit', 'quit_waiting'):
+                    # the signal arrives while the idle daemon sleeps in select(): its handler runs there, not in a loop callback
+                    def deliver():
+                        state['fired'] = True
+                        w.arbiter.ctrl.sys_hdl.signal(trig)
+                    w.os_signals.append((w.clock.now + 0.37 + 0.4 * late, deliver))
+                    return
                 pre_request()
                 if pre in ('late_socket', 'changed_watcher'):
                     w.vloop.call_later(1.0 + 0.1 * late, fire)       # after the reloadconfig has completed
@@ -196,8 +203,9 @@ def c08_shutdown(ti: int, pi: int, d: int, late: int, rep: int) -> bool:
             ok = True
             exclusive_at_trigger = state.get('pre_req') is not None or (d > 0)
             if state['hung']:
-                if rt.finding_listed('c08.signal_dropped_while_operation_in_flight') and trig not in ('quit', 'quit_waiting'):
-                    return rt.skip()
+                if rt.finding_listed('c08.signal_dropped_while_operation_in_flight') and trig not in ('quit', 'quit_waiting') and \
+                        (exclusive_at_trigger or pre not in ('none',)):
+                    return rt.skip()          # the listed finding needs an operation in flight when the signal arrives
                 if rt.finding_listed('c08.signal_dropped_while_operation_in_flight') and trig in ('quit', 'quit_waiting') and \
                         state['quit_req'] is not None and state['quit_req'].status == 'error':
                     return rt.skip()      # a quit REQUEST refused by a conflict is answered with an error: not the finding, not a violation
@@ -240,7 +248,9 @@ def c08_shutdown(ti: int, pi: int, d: int, late: int, rep: int) -> bool:
 
 
 # ---------------------------------------------------------------------------------------------
-CORES = ('', 'SELF', 'LIVE', 'DEAD', 'FOREIGN', '0', '-5', 'abc', '99999999999999999999', '12 34', '0x10', '1e3')
+CORES = ('', 'SELF', 'LIVE', 'DEAD', 'FOREIGN', '0', '-5', 'abc', '99999999999999999999', '12 34', '0x10', '1e3',
+         'BIN_FF', 'BIN_UTF16', 'BIN_TORN')        # the last three: bytes that are not valid UTF-8 (torn write, other encoding)
+BINARY = {'BIN_FF': b'\xff\xfe', 'BIN_UTF16': '4242'.encode('utf-16'), 'BIN_TORN': b'42\x9c42'}
 FRINGE = ('', ' ', '\n', 'x', '\t', '\x00')
 LIVE_PID, DEAD_PID, FOREIGN_PID = 4242, 4343, 4444
 
@@ -282,12 +292,15 @@ def c08_pidfile(ci: int, i: int, j: int, missing: bool) -> bool:
     old_os = pf.os
     pf.os = OS()
     try:
+        binary = core_ in BINARY
+        if binary:
+            content = BINARY[core_]               # fringes do not apply: the raw bytes are the content
         if not missing:
-            with open(path, 'w') as f:
+            with open(path, 'wb' if binary else 'w') as f:
                 f.write(content)
         # independent reading of the content
         try:
-            named = int(content) if not missing else None
+            named = int(content) if not missing and not binary else None
         except ValueError:
             named = None
         must_refuse = named is not None and named > 0 and named != me and named in (LIVE_PID, FOREIGN_PID)
@@ -297,8 +310,13 @@ def c08_pidfile(ci: int, i: int, j: int, missing: bool) -> bool:
             p.create(me)
         except (RuntimeError, OSError):
             refused = True
+        except ValueError as e:
+            rt.note('create() on a pid file holding %r raised %s: the daemon cannot start', content, type(e).__name__)
+            return rt.verdict(False)
         ok = True
-        now = open(path).read() if os.path.exists(path) else None
+        now = open(path, 'rb' if binary else 'r').read() if os.path.exists(path) else None
+        if binary and now is not None and not refused:
+            now = now.decode('utf-8', 'replace')
         if must_refuse:
             if not refused:
                 rt.note('pid file content %r names the live process %r: create() took over (file now %r)', content, named, now)
@@ -389,6 +407,9 @@ def plan(tier):
         sh.append(dict({'pre': pi, 'dmax': 0, 'stubborn': False}, **extra))
         sh.append(dict({'pre': pi, 'dmax': 0, 'stubborn': True}, **extra))
     sh.append({'pre': 0, 'dmax': 0, 'stubborn': True, 'repmax': 2})
+    # an idle daemon without periodic check (check_delay -1): nothing wakes the loop but the signal itself
+    sh.append({'pre': 0, 'dmax': 0, 'stubborn': False, 'in_select': True, 'check_delay': -1})
+    sh.append({'pre': 0, 'dmax': 0, 'stubborn': False, 'in_select': True})
     sh.append({'pre': 0, 'dmax': 12 if q else 40, 'stubborn': False})
     sh.append({'pre': 0, 'dmax': 12 if q else 40, 'stubborn': True, 'warm': 1})
     return [
